@@ -121,7 +121,8 @@ def compare(rec, sub, case, r, exp, expdims):
 
 
 # ---------------------------------------------------------------- part (a)
-AXSPELL = ("X", ["X"], ("X",))  # a single axis may be given as str, list or tuple
+AXSPELL = (lambda: "X", lambda: ["X"], lambda: ("X",), lambda: iter(["X"]), lambda: (a for a in ("X",)), lambda: {"X": None}.keys())
+# a single axis may be given as str, list, tuple or any other iterable of names (also one that can be walked only once)
 
 
 def part_a(rec, li, n, seed, only=None):
@@ -175,7 +176,7 @@ def part_a(rec, li, n, seed, only=None):
                             kw["to"] = to
                         rec.case(("a", li, n, fr, to, rule, fv, supply, op, omit), (fr, to) in PADS or n >= 3, sample=case)
                         try:
-                            r = getattr(g, op)(da, AXSPELL[(li + n + len(op)) % 3], **kw)
+                            r = getattr(g, op)(da, AXSPELL[(li + n + len(op)) % 6](), **kw)
                             if not np.array_equal(da.values, base):
                                 rec.violation("single-axis", "input-array-modified", case, base, da.values)
                                 continue
